@@ -355,12 +355,14 @@ impl Display for Tok<'_> {
 pub struct Lexer<'source> {
     inner: SpannedIter<'source, Tok<'source>>,
     comment_depth: usize,
+    /// Span of the outermost `/-` of the block comment being skipped.
+    comment_start: Range<usize>,
 }
 
 impl<'source> Lexer<'source> {
     /// Create a new lexer for a source string.
     pub fn new(source: &'source str) -> Self {
-        Self { inner: Tok::lexer(source).spanned(), comment_depth: 0 }
+        Self { inner: Tok::lexer(source).spanned(), comment_depth: 0, comment_start: 0..0 }
     }
 }
 
@@ -372,7 +374,10 @@ impl<'source> Iterator for Lexer<'source> {
             match self.inner.next() {
                 | Some((Ok(Tok::TextLine(_)), _)) => continue,
                 | Some((Ok(Tok::CommentLine(_)), _)) => continue,
-                | Some((Ok(Tok::CommentOpen), _)) => {
+                | Some((Ok(Tok::CommentOpen), range)) => {
+                    if self.comment_depth == 0 {
+                        self.comment_start = range;
+                    }
                     self.comment_depth += 1;
                     continue;
                 }
@@ -384,7 +389,15 @@ impl<'source> Iterator for Lexer<'source> {
                 }
                 | Some((Ok(_tok), _)) if self.comment_depth > 0 => continue,
                 | Some((Ok(tok), range)) => break Some((range.start, tok, range.end)),
-                | _ => break None,
+                | _ => {
+                    if self.comment_depth > 0 {
+                        // The input ended inside a block comment: hand its `/-` to the
+                        // parser, which rejects it, instead of accepting the prefix.
+                        self.comment_depth = 0;
+                        break Some((self.comment_start.start, Tok::CommentOpen, self.comment_start.end));
+                    }
+                    break None;
+                }
             }
         }
     }
